@@ -1739,7 +1739,11 @@ func reposPostHandler(c web.C, w http.ResponseWriter, r *http.Request) {
 	var assign dvid.UUID
 	var assignPtr *dvid.UUID
 	if found {
-		assign = dvid.UUID(assignStr)
+		assign, err = dvid.StringToUUID(assignStr)
+		if err != nil {
+			BadRequest(w, r, "POST on repos endpoint requires valid 'root': %v", err)
+			return
+		}
 		assignPtr = &assign
 	}
 
